@@ -891,7 +891,9 @@ theorem guards_are_wired :
     SdnsVerif.Gen.C07.shape_answer_filters_before_splice = true ∧
     SdnsVerif.Gen.C07.shape_level_is_zone_depth = true ∧
     SdnsVerif.Gen.C07.shape_nsaddr_lookups_use_searchAddrs = true ∧
-    SdnsVerif.Gen.C07.shape_dname_target_resolved_separately = true := by decide
+    SdnsVerif.Gen.C07.shape_dname_target_resolved_separately = true ∧
+    SdnsVerif.Gen.C07.shape_addresses_built_only_by_usableAddr = true ∧
+    SdnsVerif.Gen.C07.shape_checkhosts_uses_filtered_lookups = true := by decide
 
 /-- The compiled `usableAddr` rejects every loopback probe (127.0.0.1 in both
 spellings, the ends of 127/8, ::1) and every address of every local interface,
